@@ -34,11 +34,11 @@ def _drive(coro):
             params=range(4), timeout=(280, 1200),
             bounds="store of 2 events with kind from {1,19999,30000,0}, created_at symbolic 1..200 and an expiration tag by symbolic "
                    "selector from {none, T-1, T, T+1, far future, malformed, empty, value with fewer digits than T}; T by PARAM from "
-                   "{1700000000, 1000, 999, 2000000000}; quick tier: second event regular kind, first event without tag or with T-1")
+                   "{1700000000, 1000, 999, 2000000000}; quick tier: second event regular kind, first event without tag, with T-1 or with T+1")
 def ob_gc_pass(k0: int, t0: int, x0: int, k1: int, t1: int, x1: int) -> str:
     """
     pre: 0 <= k0 < 4 and 0 <= k1 < 4 and 1 <= t0 <= 200 and 1 <= t1 <= 200 and 0 <= x0 < 8 and 0 <= x1 < 8
-    pre: THOROUGH or (k1 == 0 and x0 < 2)
+    pre: THOROUGH or (k1 == 0 and x0 in (0, 1, 3))
     post: _.startswith("ok")
     """
     logging.disable(logging.CRITICAL)
